@@ -19,6 +19,8 @@ pub enum SdOp {
     NumBytes,
     CardType,
     MarkUninit,
+    /// erase_single_block_enabled(): one more reader of the card-specific-data register
+    EraseEnabled,
 }
 
 #[derive(Clone, Debug, PartialEq)]
@@ -128,6 +130,10 @@ pub fn exec(c: &Conv, op: SdOp, op_index: usize) -> SdRes {
             Err(e) => SdRes::Err(format!("{:?}", e)),
         },
         SdOp::CardType => SdRes::Type(type_code(sd.get_card_type())),
+        SdOp::EraseEnabled => match sd.erase_single_block_enabled() {
+            Ok(b) => SdRes::Num(b as u64),
+            Err(e) => SdRes::Err(format!("{:?}", e)),
+        },
         SdOp::MarkUninit => {
             sd.mark_card_uninit();
             SdRes::Ok
@@ -139,7 +145,54 @@ pub fn exec(c: &Conv, op: SdOp, op_index: usize) -> SdRes {
     }
 }
 
-fn v(prop: &str, sig: String, detail: String, input: Value) -> Violation {
+static SD_SKIPPED: std::sync::atomic::AtomicU64 = std::sync::atomic::AtomicU64::new(0);
+static SD_DEADLINE: std::sync::Mutex<Option<std::time::Instant>> = std::sync::Mutex::new(None);
+
+/// Wall-clock budget of one SD check (all its sweeps together); `VERIF_BUDGET_S` overrides it.
+fn sd_set_deadline(tier: &str) {
+    let secs: u64 = std::env::var("VERIF_BUDGET_S").ok().and_then(|x| x.parse().ok()).unwrap_or(if tier == "quick" { 50 } else { 1500 });
+    *SD_DEADLINE.lock().unwrap() = Some(std::time::Instant::now() + std::time::Duration::from_secs(secs));
+}
+
+fn sd_deadline() -> std::time::Instant {
+    SD_DEADLINE.lock().unwrap().unwrap_or_else(|| std::time::Instant::now() + std::time::Duration::from_secs(86_400))
+}
+
+/// `par_map` under the check's deadline; jobs not started in time are counted and reported as a cap.
+fn sd_map<T: Send + Default, F: Fn(usize) -> T + Sync>(n: usize, f: F) -> Vec<T> {
+    crate::util::par_map_until(n, sd_deadline(), f)
+        .into_iter()
+        .map(|x| {
+            x.unwrap_or_else(|| {
+                SD_SKIPPED.fetch_add(1, std::sync::atomic::Ordering::Relaxed);
+                T::default()
+            })
+        })
+        .collect()
+}
+
+fn sd_cap_note(rep: &mut Report) {
+    let k = SD_SKIPPED.load(std::sync::atomic::Ordering::Relaxed);
+    if crate::simcard::DEADLINE_HIT.load(std::sync::atomic::Ordering::Relaxed) && k == 0 {
+        rep.cov("capped", json!("wall-clock budget reached inside a timing exploration"));
+        rep.cov("exhaustive", json!(false));
+    }
+    if k > 0 {
+        rep.cov("capped", json!(format!("wall-clock budget reached: {} sweep jobs were not run", k)));
+        rep.cov("exhaustive", json!(false));
+    }
+}
+
+fn v(prop: &str, sig: String, mut detail: String, input: Value) -> Violation {
+    // thousands of sweep jobs may each return a violation before they are de-duplicated: keep them small
+    if detail.len() > 1500 {
+        let mut cut = 1500;
+        while !detail.is_char_boundary(cut) {
+            cut -= 1;
+        }
+        detail.truncate(cut);
+        detail.push_str(" …");
+    }
     Violation { prop: prop.into(), sig, detail, scenario: "sd".into(), hist: vec![], input: Some(input) }
 }
 
@@ -156,6 +209,7 @@ fn op_from_str(s: &str) -> Option<SdOp> {
         "NumBlocks" => SdOp::NumBlocks,
         "NumBytes" => SdOp::NumBytes,
         "CardType" => SdOp::CardType,
+        "EraseEnabled" => SdOp::EraseEnabled,
         "MarkUninit" => SdOp::MarkUninit,
         _ => return None,
     })
@@ -247,6 +301,13 @@ pub fn run_conversation(kind: Kind, crc: bool, csd: [u8; 16], ops: &[SdOp], ch: 
                     out.c12.push((format!("capacity/num_bytes-wrong/{:?}", kind), format!("num_bytes() = {} but the register (CSD_STRUCTURE {}) encodes {} bytes", r.class(), csd[0] >> 6, want)));
                 }
             }
+            (SdOp::EraseEnabled, r) => {
+                // ERASE_BLK_EN is bit 46 of the register in both layouts
+                let want = (csd[10] >> 6 & 1) as u64;
+                if *r != SdRes::Num(want) {
+                    out.c12.push((format!("register/erase_single_block_enabled-wrong/{:?}", kind), format!("erase_single_block_enabled() = {} but the register holds ERASE_BLK_EN = {}", r.class(), want)));
+                }
+            }
             (SdOp::CardType, r) => {
                 if *r != SdRes::Type(Some(kind_code(kind))) {
                     out.c12.push((format!("card-type-wrong/{:?}", kind), format!("get_card_type() = {} for a {:?} card", r.class(), kind)));
@@ -278,6 +339,7 @@ fn opname(op: &SdOp) -> &'static str {
         SdOp::NumBlocks => "num_blocks",
         SdOp::NumBytes => "num_bytes",
         SdOp::CardType => "get_card_type",
+        SdOp::EraseEnabled => "erase_single_block_enabled",
         SdOp::MarkUninit => "mark_card_uninit",
     }
 }
@@ -300,6 +362,7 @@ fn op_alphabet(kind: Kind, tier: &str, with_beyond: bool) -> Vec<SdOp> {
     a.push(SdOp::NumBlocks);
     a.push(SdOp::NumBytes);
     a.push(SdOp::CardType);
+    a.push(SdOp::EraseEnabled);
     a.push(SdOp::MarkUninit);
     if with_beyond {
         // calls the card refuses without any fault: reads and writes beyond its capacity
@@ -345,7 +408,7 @@ fn explore_sd(prop: &str, tier: &str, with_beyond: bool) -> Agg {
             }
         }
     }
-    let results: Vec<(u64, u64, u64, Vec<Violation>, BTreeMap<String, u64>, usize)> = par_map(jobs.len(), |j| {
+    let results: Vec<(u64, u64, u64, Vec<Violation>, BTreeMap<String, u64>, usize)> = sd_map(jobs.len(), |j| {
         let (kind, crc, ops, bound) = &jobs[j];
         let csd = default_csd(*kind);
         let mut viols: Vec<Violation> = Vec::new();
@@ -355,6 +418,7 @@ fn explore_sd(prop: &str, tier: &str, with_beyond: bool) -> Agg {
         let mut maxp = 0;
         let runs = explore_choices(
             *bound,
+            Some(sd_deadline()),
             |ch| run_conversation(*kind, *crc, csd, ops, ch),
             |ch, out| {
                 ex += out.exchanges;
@@ -366,6 +430,7 @@ fn explore_sd(prop: &str, tier: &str, with_beyond: bool) -> Agg {
                     *outcomes.entry(format!("{}: {}", name, key)).or_insert(0) += 1;
                 }
                 let list = if prop == "C12" { &out.c12 } else { &out.c14 };
+                let clean = list.is_empty();
                 for (sig, detail) in list {
                     if !viols.iter().any(|x| &x.sig == sig) {
                         let choices: Vec<u8> = ch.taken.iter().map(|t| t.2).collect();
@@ -377,6 +442,8 @@ fn explore_sd(prop: &str, tier: &str, with_beyond: bool) -> Agg {
                         ));
                     }
                 }
+                // a run that is itself a counterexample is not deviated from any further
+                clean
             },
         );
         (runs, ex, cmds, viols, outcomes, maxp)
@@ -408,7 +475,10 @@ fn csd_sweep(tier: &str) -> (Vec<Violation>, u64) {
                 if tier == "quick" && !(c_size < 8 || c_size > 4087 || c_size % 97 == 0) {
                     continue;
                 }
-                let csd = csd_v1(c_size, mult, rbl);
+                let mut csd = csd_v1(c_size, mult, rbl);
+                if c_size % 2 == 1 {
+                    csd[10] &= !0x40; // ERASE_BLK_EN = 0
+                }
                 jobs.push((Kind::V1Sdsc, csd));
                 jobs.push((Kind::V2Sdsc, csd));
             }
@@ -420,9 +490,13 @@ fn csd_sweep(tier: &str) -> (Vec<Violation>, u64) {
         (0..0x3F_FFFFu32).step_by(1).collect()
     };
     for c in v2_sizes {
-        jobs.push((Kind::V2Sdhc, csd_v2(c)));
+        let mut csd = csd_v2(c);
+        if c % 2 == 1 {
+            csd[10] &= !0x40;
+        }
+        jobs.push((Kind::V2Sdhc, csd));
     }
-    let res: Vec<Option<Violation>> = par_map(jobs.len(), |i| {
+    let res: Vec<Option<Violation>> = sd_map(jobs.len(), |i| {
         let (kind, csd) = jobs[i];
         let mut card = Card::new_ready(kind, csd, true);
         card.capacity_blocks = 0;
@@ -434,9 +508,13 @@ fn csd_sweep(tier: &str) -> (Vec<Violation>, u64) {
         };
         unsafe { c.sd.mark_card_as_init(ct) };
         let want = spec_capacity_blocks(&csd);
-        for op in [SdOp::NumBlocks, SdOp::NumBytes] {
+        for op in [SdOp::NumBlocks, SdOp::NumBytes, SdOp::EraseEnabled] {
             let r = exec(&c, op, 0);
-            let w = if op == SdOp::NumBlocks { want } else { want * 512 };
+            let w = match op {
+                SdOp::NumBlocks => want,
+                SdOp::NumBytes => want * 512,
+                _ => (csd[10] >> 6 & 1) as u64,
+            };
             if op == SdOp::NumBlocks && want > u32::MAX as u64 {
                 continue;
             }
@@ -468,6 +546,7 @@ fn csd_sweep(tier: &str) -> (Vec<Violation>, u64) {
 
 pub fn run_c12(tier: &str) -> i32 {
     let mut rep = Report::new("C12", tier, "model_checking");
+    sd_set_deadline(tier);
     let agg = explore_sd("C12", tier, false);
     let (cv, cn) = csd_sweep(tier);
     rep.add_violations(agg.viols);
@@ -479,6 +558,9 @@ pub fn run_c12(tier: &str) -> i32 {
     rep.cov("call_sequences", json!(agg.conversations));
     rep.cov("spi_byte_exchanges", json!(agg.exchanges));
     rep.cov("max_choice_points_in_one_run", json!(agg.max_points));
+    if crate::simcard::CHOICE_POINT_CAP_HIT.load(std::sync::atomic::Ordering::Relaxed) {
+        rep.cov("capped", json!(format!("a run had more than {} choice points; points beyond that index were not deviated from", crate::simcard::MAX_DEVIATION_POINT)));
+    }
     rep.cov("csd_registers_checked", json!(cn));
     rep.cov("deviation_bound", json!(if tier == "quick" { "2 for single calls, 1 for sequences of two" } else { "2 up to depth 2, 1 at depth 3" }));
     rep.cov("timing_menus", json!({"N_CR": NCR_MENU, "acmd41_idle_iterations": ACMD41_MENU, "data_token_delay": TOKEN_DELAY_MENU, "busy_after_write": BUSY_WRITE_MENU, "busy_after_stop": BUSY_MENU}));
@@ -486,14 +568,44 @@ pub fn run_c12(tier: &str) -> i32 {
     rep.cov("samples", json!([{"kind":"V2Sdhc","crc":true,"ops":["Write(255, 3)","Read(255, 3)"],"choices":"all default"}, {"kind":"V1Sdsc","crc":false,"ops":["Write(0, 1)","MarkUninit"],"choices":"busy-after-write#3"}]));
     rep.assumptions.push("card timings are menus, not all integers below the time-outs".into());
     rep.assumptions.push("the card model is written from the SD physical layer specification (SPI mode) and validated by golden frames and by the unmodified driver working under every timing choice".into());
+    sd_cap_note(&mut rep);
     rep.finish()
 }
 
+/// One "calls after errors" conversation: `first` under `fault`, then a healthy card and two more calls; the monitor
+/// judges the whole conversation. When the first call is a multi-block write that the fault interrupts, the host cannot
+/// end it properly (the card is gone), so only the busy, framing and ordering rules are judged there.
+fn after_error_case(kind: Kind, crc: bool, fault: &Fault, first: SdOp) -> (Vec<(String, String)>, [String; 3]) {
+    let mut card = Card::new(kind, default_csd(kind));
+    card.fault = fault.clone();
+    card.monitor = Some(Box::new(Monitor::new()));
+    let c = conv(card, crc);
+    let r1 = exec(&c, first, 0);
+    {
+        let mut cb = c.card.borrow_mut();
+        cb.fault = Fault::None;
+        cb.horizon = cb.exchanges + 50_000_000;
+    }
+    let r2 = exec(&c, SdOp::Read(2, 1), 1);
+    let r3 = exec(&c, SdOp::Write(3, 1), 2);
+    let mut cb = c.card.borrow_mut();
+    let mon = cb.monitor.as_mut().unwrap();
+    mon.finish();
+    let multi_write_first = matches!(first, SdOp::Write(_, n) if n > 1);
+    let vs = mon
+        .violations
+        .iter()
+        .filter(|(sig, _)| !multi_write_first || sig.starts_with("busy/") || sig.starts_with("frame/") || sig.starts_with("order/"))
+        .map(|(sig, d)| (format!("after-error/{}", sig), d.clone()))
+        .collect();
+    (vs, [r1.class(), r2.class(), r3.class()])
+}
+
 /// C14 "calls after errors": a first call that fails at some stage of identification (or later), then a healthy
-/// card and two more calls; the monitor judges the whole conversation.
+/// card and two more calls.
 fn after_error_runs(tier: &str) -> (Vec<Violation>, u64) {
     let kinds = [Kind::V1Sdsc, Kind::V2Sdsc, Kind::V2Sdhc];
-    let mut jobs: Vec<(Kind, bool, Fault)> = Vec::new();
+    let mut jobs: Vec<(Kind, bool, Fault, SdOp)> = Vec::new();
     for &k in &kinds {
         for crc in [true, false] {
             // length of a fault-free identification + one read, in bytes and transactions
@@ -505,44 +617,47 @@ fn after_error_runs(tier: &str) -> (Vec<Violation>, u64) {
                 let cb = c.card.borrow();
                 (cb.exchanges, cb.txns)
             };
-            jobs.push((k, crc, Fault::NeverReady));
+            let first = SdOp::Read(1, 1);
+            jobs.push((k, crc, Fault::NeverReady, first));
             let (bs, ts) = if tier == "quick" { (5, 3) } else { (1, 1) };
             for at in (0..bytes).step_by(bs) {
-                jobs.push((k, crc, Fault::Silent { at }));
+                jobs.push((k, crc, Fault::Silent { at }, first));
             }
             for txn in (0..txns).step_by(ts) {
-                jobs.push((k, crc, Fault::SpiError { txn }));
+                jobs.push((k, crc, Fault::SpiError { txn }, first));
+            }
+            // a multi-block write during which the card goes silent / stays busy for ever, at every byte of the write
+            let mut card = Card::new(k, default_csd(k));
+            card.fault = Fault::None;
+            let c = conv(card, crc);
+            exec(&c, SdOp::CardType, 0);
+            let ident = c.card.borrow().exchanges;
+            let firstw = SdOp::Write(1, 2);
+            exec(&c, firstw, 1);
+            let total = c.card.borrow().exchanges;
+            for at in ident..total + 2 {
+                // inside the 512 payload bytes every 32nd position is enough to tell the cases apart in the quick tier
+                jobs.push((k, crc, Fault::BusyForever { at }, firstw));
+                if tier != "quick" || at % 3 == 0 {
+                    jobs.push((k, crc, Fault::Silent { at }, firstw));
+                }
             }
         }
     }
-    let res: Vec<Vec<Violation>> = par_map(jobs.len(), |i| {
-        let (kind, crc, fault) = &jobs[i];
-        let mut card = Card::new(*kind, default_csd(*kind));
-        card.fault = fault.clone();
-        card.monitor = Some(Box::new(Monitor::new()));
-        let c = conv(card, *crc);
-        let r1 = exec(&c, SdOp::Read(1, 1), 0);
-        {
-            let mut cb = c.card.borrow_mut();
-            cb.fault = Fault::None;
-            cb.horizon = cb.exchanges + 50_000_000;
-        }
-        let r2 = exec(&c, SdOp::Read(2, 1), 1);
-        let r3 = exec(&c, SdOp::Write(3, 1), 2);
-        let mut cb = c.card.borrow_mut();
-        let mon = cb.monitor.as_mut().unwrap();
-        mon.finish();
-        mon.violations
-            .iter()
+    let res: Vec<Vec<Violation>> = sd_map(jobs.len(), |i| {
+        let (kind, crc, fault, first) = &jobs[i];
+        let (vs, r) = after_error_case(*kind, *crc, fault, *first);
+        vs.into_iter()
             .map(|(sig, detail)| {
                 v(
                     "C14",
-                    format!("after-error/{}", sig),
-                    format!("{:?} card, CRC {}, first call under fault {:?} -> {}, then healthy card: read -> {}, write -> {}: {}", kind, if *crc { "on" } else { "off" }, fault, r1.class(), r2.class(), r3.class(), detail),
+                    sig,
+                    format!("{:?} card, CRC {}, first call {:?} under fault {:?} -> {}, then healthy card: read -> {}, write -> {}: {}", kind, if *crc { "on" } else { "off" }, first, fault, r[0], r[1], r[2], detail),
                     {
                         let mut j = fault_json(*kind, *crc, fault);
                         j["prop"] = json!("C14");
                         j["after_error"] = json!(true);
+                        j["first"] = json!(format!("{:?}", first));
                         j
                     },
                 )
@@ -563,6 +678,7 @@ fn after_error_runs(tier: &str) -> (Vec<Violation>, u64) {
 
 pub fn run_c14(tier: &str) -> i32 {
     let mut rep = Report::new("C14", tier, "model_checking");
+    sd_set_deadline(tier);
     let agg = explore_sd("C14", tier, true);
     rep.add_violations(agg.viols);
     let (av, an) = after_error_runs(tier);
@@ -577,7 +693,37 @@ pub fn run_c14(tier: &str) -> i32 {
     rep.cov("outcomes", json!(agg.outcomes));
     rep.cov("samples", json!([{"kind":"V2Sdsc","crc":true,"ops":["MarkUninit","Read(1, 1)"]}, {"kind":"V2Sdhc","crc":false,"ops":["Read(1024, 1)","Write(0, 2)"],"note":"call after an error that needs no fault"}]));
     rep.assumptions.push("the monitor is a separate automaton fed with the raw MOSI/MISO bytes; CMD0 and CMD12 are exempt from the not-busy rule".into());
+    sd_cap_note(&mut rep);
     rep.finish()
+}
+
+/// C19, "use in command framing and data blocks": the checksums the driver actually puts on the bus in a healthy
+/// conversation of every call kind, for every card kind and CRC mode, judged by the monitor's independent division.
+/// Returns (kind, crc, ops, signature, detail) for every checksum complaint, and the number of frames + blocks seen.
+pub fn wire_checksum_runs() -> (Vec<(u8, bool, Vec<String>, String, String)>, u64) {
+    let mut out = Vec::new();
+    let mut seen = 0u64;
+    for kind in [Kind::V1Sdsc, Kind::V2Sdsc, Kind::V2Sdhc] {
+        for crc in [true, false] {
+            let ops = [SdOp::Read(1, 1), SdOp::Read(2, 3), SdOp::Write(5, 1), SdOp::Write(8, 3), SdOp::NumBlocks, SdOp::EraseEnabled, SdOp::MarkUninit, SdOp::Read(0, 1)];
+            let (_, r) = run_conversation(kind, crc, default_csd(kind), &ops, Chooser::default());
+            seen += r.commands;
+            for (sig, detail) in r.c14 {
+                if sig.contains("crc") {
+                    out.push((kind_code(kind), crc, ops.iter().map(|o| format!("{:?}", o)).collect(), sig, detail));
+                }
+            }
+        }
+    }
+    (out, seen)
+}
+
+pub fn wire_checksum_replay(inp: &Value) -> Vec<(String, String)> {
+    let kind = kind_from(inp["kind"].as_u64().unwrap_or(3));
+    let crc = inp["crc"].as_bool().unwrap_or(true);
+    let ops: Vec<SdOp> = inp["ops"].as_array().map(|a| a.iter().filter_map(|x| x.as_str().and_then(op_from_str)).collect()).unwrap_or_default();
+    let (_, r) = run_conversation(kind, crc, default_csd(kind), &ops, Chooser::default());
+    r.c14.into_iter().filter(|(s, _)| s.contains("crc")).collect()
 }
 
 // ---------------------------------------------------------------------------
@@ -709,7 +855,7 @@ fn run_faulty(kind: Kind, crc: bool, fault: Fault, inp: &Value) -> (Vec<Violatio
             out.push(v(
                 "C13",
                 format!("no-recovery/{}", if during_init { "after-failed-initialisation-without-mark-uninit" } else { "after-mark-uninit" }),
-                format!("{}: after the failure of call {} ({:?} -> {}; host commands sent so far {:?}) and healing the card{}: read -> {}, write -> {}, read back -> {}", desc, i, ops[i], exec_err_text(&c, &ops, i), host_before, if during_init { "" } else { " and mark_card_uninit" }, r1.class(), r2.class(), r3.class()),
+                format!("{}: after the failure of call {} ({:?} -> {}; host commands sent so far {}) and healing the card{}: read -> {}, write -> {}, read back -> {}", desc, i, ops[i], exec_err_text(&c, &ops, i), if host_before.len() > 24 { format!("{:?} … {:?} ({} in all)", &host_before[..12], &host_before[host_before.len() - 8..], host_before.len()) } else { format!("{:?}", host_before) }, if during_init { "" } else { " and mark_card_uninit" }, r1.class(), r2.class(), r3.class()),
                 inp.clone(),
             ));
         }
@@ -760,6 +906,12 @@ fn fault_from(j: &Value) -> Fault {
 
 /// Bit flips and bursts on an already-identified card (skips initialisation for speed).
 fn flip_case(kind: Kind, bits: &[usize]) -> Option<Violation> {
+    flip_case_op(kind, bits, SdOp::Read(3, 1))
+}
+
+/// The same for any call whose first data block from the card is the corrupted one (a 512-byte block for a read,
+/// the 16-byte register block for the capacity calls).
+fn flip_case_op(kind: Kind, bits: &[usize], op: SdOp) -> Option<Violation> {
     let mut card = Card::new_ready(kind, default_csd(kind), true);
     card.fault = Fault::FlipBits { nth_block: 0, bits: bits.to_vec() };
     let c = conv(card, true);
@@ -769,20 +921,21 @@ fn flip_case(kind: Kind, bits: &[usize]) -> Option<Violation> {
         Kind::V2Sdhc => CardType::SDHC,
     };
     unsafe { c.sd.mark_card_as_init(ct) };
-    let r = exec(&c, SdOp::Read(3, 1), 0);
+    let r = exec(&c, op, 0);
     match r {
         SdRes::Err(_) => None,
         other => Some(v(
             "C13",
-            "corrupt-read-returned-ok@read".into(),
-            format!("{:?} card, CRC on: bits {:?} of data block + CRC flipped on the wire, read returned {}", kind, bits, other.class()),
-            json!({"prop":"C13","kind":kind_code(kind),"crc":true,"flip_ready":bits}),
+            format!("corrupt-read-returned-ok@{}", opname(&op)),
+            format!("{:?} card, CRC on: bits {:?} of data block + CRC flipped on the wire, {:?} returned {}", kind, bits, op, other.class()),
+            json!({"prop":"C13","kind":kind_code(kind),"crc":true,"flip_ready":bits,"flip_op":format!("{:?}", op)}),
         )),
     }
 }
 
 pub fn run_c13(tier: &str) -> i32 {
     let mut rep = Report::new("C13", tier, "fault_enumeration");
+    sd_set_deadline(tier);
     let kinds = [Kind::V1Sdsc, Kind::V2Sdsc, Kind::V2Sdhc];
     let mut viols: Vec<Violation> = Vec::new();
     let mut evals = 0u64;
@@ -868,7 +1021,7 @@ pub fn run_c13(tier: &str) -> i32 {
             }
         }
     }
-    let res: Vec<(Vec<Violation>, u64)> = par_map(jobs.len(), |i| {
+    let res: Vec<(Vec<Violation>, u64)> = sd_map(jobs.len(), |i| {
         let (k, crc, f) = &jobs[i];
         let inp = fault_json(*k, *crc, f);
         run_faulty(*k, *crc, f.clone(), &inp)
@@ -898,7 +1051,7 @@ pub fn run_c13(tier: &str) -> i32 {
         }
         p
     };
-    let burst: Vec<(Option<Violation>, u64)> = par_map(nbits, |pos| {
+    let burst: Vec<(Option<Violation>, u64)> = sd_map(nbits, |pos| {
         let mut n = 0u64;
         let all = tier == "thorough" || pos % 64 == 0;
         for (pi, pat) in patterns.iter().enumerate() {
@@ -929,6 +1082,37 @@ pub fn run_c13(tier: &str) -> i32 {
         }
     }
     evals += burst_n;
+    // (a') the same for the 16-byte register block + CRC that the capacity calls read
+    let rbits = 18 * 8;
+    let reg: Vec<(Option<Violation>, u64)> = sd_map(rbits, |pos| {
+        let mut n = 0u64;
+        let all = tier == "thorough" || pos % 8 == 0;
+        for (pi, pat) in patterns.iter().enumerate() {
+            if !all && pi >= 8 {
+                break;
+            }
+            let bits: Vec<usize> = pat.iter().map(|o| pos + o).filter(|&b| b < rbits).collect();
+            if bits.len() != pat.len() {
+                continue;
+            }
+            n += 1;
+            let kind = kinds[(pos + pi) % 3];
+            let op = [SdOp::NumBlocks, SdOp::NumBytes, SdOp::EraseEnabled][(pos + pi / 3) % 3];
+            if let Some(x) = flip_case_op(kind, &bits, op) {
+                return (Some(x), n);
+            }
+        }
+        (None, n)
+    });
+    let mut reg_n = 0u64;
+    for (x, n) in reg {
+        reg_n += n;
+        if let Some(x) = x {
+            add(&mut viols, x);
+        }
+    }
+    evals += reg_n;
+    rep.cov("register_block_burst_runs", json!(reg_n));
     rep.add_violations(viols);
     rep.cov("evaluations", json!(evals));
     rep.cov("distinct_nontrivial", json!(evals - 6));
@@ -941,6 +1125,7 @@ pub fn run_c13(tier: &str) -> i32 {
     rep.cov("exhaustive", json!(tier == "thorough"));
     rep.assumptions.push("the fixed bound on SPI traffic is 5*10^7 byte exchanges per call, about 100 times the worst case of the current time-out constants".into());
     rep.assumptions.push("misbehaving cards are three stereotypes per byte position (silent, busy forever, fixed garbage cycle)".into());
+    sd_cap_note(&mut rep);
     rep.finish()
 }
 
@@ -951,7 +1136,8 @@ pub fn replay_input(inp: &Value) -> i32 {
     let mut found: Vec<(String, String)> = Vec::new();
     if let Some(bits) = inp.get("flip_ready").and_then(|x| x.as_array()) {
         let bits: Vec<usize> = bits.iter().map(|x| x.as_u64().unwrap_or(0) as usize).collect();
-        if let Some(x) = flip_case(kind, &bits) {
+        let op = inp["flip_op"].as_str().and_then(op_from_str).unwrap_or(SdOp::Read(3, 1));
+        if let Some(x) = flip_case_op(kind, &bits, op) {
             found.push((x.sig, x.detail));
         }
     } else if let Some(csd) = inp.get("csd").and_then(|x| x.as_str()) {
@@ -959,28 +1145,16 @@ pub fn replay_input(inp: &Value) -> i32 {
         for i in 0..16 {
             c[i] = u8::from_str_radix(&csd[2 * i..2 * i + 2], 16).unwrap_or(0);
         }
-        let (_, out) = run_conversation(kind, true, c, &[SdOp::NumBlocks, SdOp::NumBytes], Chooser::default());
+        let (_, out) = run_conversation(kind, true, c, &[SdOp::NumBlocks, SdOp::NumBytes, SdOp::EraseEnabled], Chooser::default());
         found.extend(out.c12);
     } else if inp["after_error"].as_bool() == Some(true) {
         let fault = fault_from(&inp["fault"]);
-        let mut card = Card::new(kind, default_csd(kind));
-        card.fault = fault;
-        card.monitor = Some(Box::new(Monitor::new()));
-        let c = conv(card, crc);
-        println!("  first call: {}", exec(&c, SdOp::Read(1, 1), 0).class());
-        {
-            let mut cb = c.card.borrow_mut();
-            cb.fault = Fault::None;
-            cb.horizon = cb.exchanges + 50_000_000;
-        }
-        println!("  healthy card: read -> {}", exec(&c, SdOp::Read(2, 1), 1).class());
-        println!("  healthy card: write -> {}", exec(&c, SdOp::Write(3, 1), 2).class());
-        let mut cb = c.card.borrow_mut();
-        let mon = cb.monitor.as_mut().unwrap();
-        mon.finish();
-        for (s, d) in &mon.violations {
-            found.push((format!("after-error/{}", s), d.clone()));
-        }
+        let first = inp["first"].as_str().and_then(op_from_str).unwrap_or(SdOp::Read(1, 1));
+        let (vs, r) = after_error_case(kind, crc, &fault, first);
+        println!("  first call {:?}: {}", first, r[0]);
+        println!("  healthy card: read -> {}", r[1]);
+        println!("  healthy card: write -> {}", r[2]);
+        found.extend(vs);
     } else if prop == "C13" {
         let f = fault_from(&inp["fault"]);
         let (vv, _) = run_faulty(kind, crc, f, inp);
